@@ -3,6 +3,7 @@
 package c09
 
 import (
+	"bytes"
 	"fmt"
 	"math"
 	"testing"
@@ -34,9 +35,11 @@ type Case struct {
 
 var checker = &vk.Checker[Case]{
 	ID: "C09",
-	Rule: "(s, from, to) with 0<=from<=to<=8*len(s): aligned/unaligned ends, empty aligned and empty unaligned ranges, unaligned from (floors to a byte), bytes 00/80/ff/7f boosted, lengths 0..20 (thorough 0..64) on both sides of the 8-byte fast path; pairs correlated on purpose (same source with another end, one bit flipped before/at/after the shorter end, prefix relation) or independent; " +
-		"plain a derived from b's source (truncated, extended, bit flipped below/at/beyond Len(b), flips only in the masked-off bits of the last byte) or unrelated, shorter/equal/longer than b's payload. Oracle: []bool bit strings, lexicographic with a proper prefix first; Len; Cmp antisymmetry; StrCmpUpto == CmpUpto from several call contexts (direct, func value, closure, fresh goroutine, closures entered right after the stack was overwritten with 00/ff) with the string's bytes unchanged. " +
-		"Grid: all strings of length <= 2 over {00,01,7f,80,ff} x from in {0,3,8,11} x all to: all pairs for Cmp, all plain strings of length <= 3 over the alphabet for CmpUpto. Non-trivial: the two bit strings share >= 1 leading bit and one ends unaligned; CmpUpto: b non-empty and len(a) >= payload bytes - 1. Grid pairs distinct by construction; rapid cases hashed when a source is longer than 2 bytes (3 for a).",
+	Rule: "(s, from, to) with 0<=from<=to<=8*len(s): aligned/unaligned ends, empty aligned and empty unaligned ranges, unaligned from (floors to a byte), bytes 00/80/ff/7f boosted, lengths 0..20 (CmpUpto 0..40; thorough 0..64) on both sides of the 8-byte fast path for 3/4 of the sources, the others with a log-uniform length (8..600, 256..4200, 2048..9000; thorough ..9000, ..40000) and synthesized content (random, boosted, constant, tiny alphabet, 00/ff with a random tail); pairs correlated on purpose (same source with another end, one bit flipped before/at/after the shorter end, prefix relation, same start with ANY other end and one bit flipped in the common part - byte lengths differ by any amount -, a shared prefix of j bytes followed by an unrelated tail) or independent; " +
+		"plain a derived from b's source (truncated anywhere / within 9 bytes of the payload's end, extended, bit flipped below/at/beyond Len(b), flips only in the masked-off bits of the last byte, diverging: j common bytes then one byte changed up/down with a shorter than / as long as / longer than the payload, the empty key) or unrelated, shorter/equal/longer than b's payload. " +
+		"Argument shapes, every case: the string given to New also as a substring at an odd offset of a larger string (ff around it; same Len, Cmp = 0 with the plain one); the key a as exact copy / reused buffer with canaries, as nil, []byte{} and b[:0:0] when empty, and as sub-slice + substring at offsets 1..7 of larger buffers with 40 bytes of spare capacity holding ff, 00 or the bytes b continues with; the encodings as sub-slices of larger buffers (Cmp both ways, CmpUpto); nothing around an argument may be written. " +
+		"Size sweep (grid phase): payloads of 1..24 bytes and 2^k-1, 2^k, 2^k+1 and two seed-dependent sizes per octave up to 2^13+1 bytes (thorough 2^17+1), plus 32767..32769 and 65535..65537 bytes (reduced set): ends cut by 0,1,4,7 bits, random / all-00 / all-ff content with a mid-valued last byte; Cmp against the same bits from another placement, a flip of the last bit / the first masked bit / the first bit of the last 8-byte word / a random bit, ends 1, 2, 9, n/2 bytes shorter (prefix, or last common bit flipped) and 2 bytes longer; CmpUpto with keys of 0,1,2,3,7,8,9,n/2,n-9,n-8,n-2,n-1,n,n+1,n+3 bytes exact and with the last byte +1 / -1, flips at Len(b)-1 and Len(b). Maximum string: ranges up to 2^23 bits wide (thorough 2^28 and the whole string). Oracle: []bool bit strings, lexicographic with a proper prefix first; Len; Cmp antisymmetry; StrCmpUpto == CmpUpto from several call contexts (direct, func value, closure, fresh goroutine, closures entered right after the stack was overwritten with 00/ff) with the string's bytes unchanged. " +
+		"Grid: all strings of length <= 2 over {00,01,7f,80,ff} x from in {0,3,8,11} x all to: all pairs for Cmp, all plain strings of length <= 3 over the alphabet for CmpUpto. Non-trivial: the two bit strings share >= 1 leading bit and one ends unaligned; CmpUpto: b non-empty and (len(a) >= payload bytes - 1 or a shares its first byte with b). Grid pairs distinct by construction; rapid cases hashed when a source is longer than 2 bytes (3 for a).",
 	Check:    check,
 	Classify: classify,
 	Hashed: func(c Case) bool {
@@ -45,10 +48,6 @@ var checker = &vk.Checker[Case]{
 		}
 		return len(c.X.S) > 2 || len(c.A) > 3
 	},
-}
-
-func bitsOf(r Range) []bool {
-	return model.StrBits(string(r.S), int(r.From)/8*8, int(r.To))
 }
 
 func sign(x int) int {
@@ -67,16 +66,21 @@ func encode(r Range) ([]byte, *vk.Failure) {
 		return nil, nil
 	}
 	var e []byte
-	if f := vk.Try(fmt.Sprintf("bitstr.New(%x, %d, %d)", r.S, r.From, r.To), func() { e = bitstr.New(string(r.S), r.From, r.To) }); f != nil {
+	if f := vk.TryF(func() string { return fmt.Sprintf("bitstr.New(%s, %d, %d)", hexShort(r.S), r.From, r.To) }, func() { e = bitstr.New(string(r.S), r.From, r.To) }); f != nil {
 		return nil, f
 	}
 	want := int32(len(bitsOf(r)))
 	var l int32
-	if f := vk.Try(fmt.Sprintf("bitstr.Len(New(%x, %d, %d)=%x)", r.S, r.From, r.To, e), func() { l = bitstr.Len(e) }); f != nil {
+	if f := vk.TryF(func() string {
+		return fmt.Sprintf("bitstr.Len(New(%s, %d, %d)=%s)", hexShort(r.S), r.From, r.To, hexShort(e))
+	}, func() { l = bitstr.Len(e) }); f != nil {
 		return nil, f
 	}
 	if l != want {
-		return nil, vk.Failf("len", "Len(New(%x, %d, %d) = %x) = %d, want %d", r.S, r.From, r.To, e, l, want)
+		return nil, vk.Failf("len", "Len(New(%s, %d, %d) = %s) = %d, want %d", hexShort(r.S), r.From, r.To, hexShort(e), l, want)
+	}
+	if f := checkNewPlacement(r, e, want); f != nil {
+		return nil, f
 	}
 	return e, nil
 }
@@ -131,7 +135,11 @@ func viaDirtyStack(ab []byte, as string, b []byte, v byte) (r1, r2 int, p any) {
 	return
 }
 
-func checkCmpUpto(a []byte, x Range) *vk.Failure { return checkCmpUptoOpts(a, x, true) }
+// For large inputs the call-context / aliasing variants run on a quarter of the cases (a pure function of the case).
+func checkCmpUpto(a []byte, x Range) *vk.Failure {
+	extras := len(a)+len(x.S) <= 2048 || (vk.Hash64(a)+uint64(x.To))&3 == 0
+	return checkCmpUptoOpts(a, x, extras)
+}
 
 // extras: the call-context and aliasing variants (in the big grid they run on a sample of the cases).
 func checkCmpUptoOpts(a []byte, x Range, extras bool) *vk.Failure {
@@ -152,11 +160,11 @@ func checkCmpUptoOpts(a []byte, x Range, extras bool) *vk.Failure {
 		ac = scratch.Bytes(a) // the plain key in a reused buffer with guarded spare capacity
 	}
 	var got int
-	if f := vk.Try(fmt.Sprintf("CmpUpto(%x, %x)", a, e), func() { got = bitstr.CmpUpto(ac, ec) }); f != nil {
+	if f := vk.TryF(func() string { return fmt.Sprintf("CmpUpto(%s, %s)", hexShort(a), hexShort(e)) }, func() { got = bitstr.CmpUpto(ac, ec) }); f != nil {
 		return f
 	}
 	if sign(got) != want || got < -1 || got > 1 {
-		return vk.Failf("cmpupto", "CmpUpto(a=%x, b=New(%x,%d,%d)=%x) = %d, want %d", a, x.S, x.From, x.To, e, got, want)
+		return vk.Failf("cmpupto", "CmpUpto(a=%s, b=New(%s,%d,%d)=%s) = %d, want %d", hexShort(a), hexShort(x.S), x.From, x.To, hexShort(e), got, want)
 	}
 	if string(ac) != string(a) || string(ec) != string(e) {
 		return vk.Failf("cmpupto-mutates", "CmpUpto modified an argument")
@@ -165,6 +173,13 @@ func checkCmpUptoOpts(a []byte, x Range, extras bool) *vk.Failure {
 		if msg := scratch.Check(); msg != "" {
 			return vk.Failf("argument-spare-capacity-written", "CmpUpto: %s", msg)
 		}
+	}
+	// the same key and encoding handed over in other shapes (nil / empty, sub-slices and substrings of larger buffers)
+	if f := checkKeyShapes(a, ec, want, x); f != nil {
+		return f
+	}
+	if string(ec) != string(e) {
+		return vk.Failf("cmpupto-mutates", "CmpUpto / StrCmpUpto modified the encoding")
 	}
 	if !extras {
 		return nil
@@ -183,18 +198,20 @@ func checkCmpUptoOpts(a []byte, x Range, extras bool) *vk.Failure {
 		}
 		wantV := sign(model.CmpBits(vb, bb))
 		var gv, gc int
-		if f := vk.Try(fmt.Sprintf("CmpUpto(b[:%d], b) with b = %x", n, e), func() { gv, gc = bitstr.CmpUpto(view, e2), bitstr.CmpUpto(cp, e2) }); f != nil {
+		if f := vk.TryF(func() string { return fmt.Sprintf("CmpUpto(b[:%d], b) with b = %s", n, hexShort(e)) }, func() { gv, gc = bitstr.CmpUpto(view, e2), bitstr.CmpUpto(cp, e2) }); f != nil {
 			return f
 		}
 		if gv != wantV || gc != wantV {
-			return vk.Failf("cmpupto-aliased-key", "CmpUpto(b[:%d], b) = %d and CmpUpto(copy of b[:%d], b) = %d, want %d (b = New(%x,%d,%d) = %x)", n, gv, n, gc, wantV, x.S, x.From, x.To, e)
+			return vk.Failf("cmpupto-aliased-key", "CmpUpto(b[:%d], b) = %d and CmpUpto(copy of b[:%d], b) = %d, want %d (b = New(%s,%d,%d) = %s)", n, gv, n, gc, wantV, hexShort(x.S), x.From, x.To, hexShort(e))
 		}
 	}
 	// the string variant, from several call contexts
 	as := string(a) // heap copy
 	keep := string(append([]byte(nil), a...))
 	var g1, g2, g3, g4 int
-	if f := vk.Try(fmt.Sprintf("StrCmpUpto(%x, %x) [direct/func value/closure]", a, e), func() {
+	if f := vk.TryF(func() string {
+		return fmt.Sprintf("StrCmpUpto(%s, %s) [direct/func value/closure]", hexShort(a), hexShort(e))
+	}, func() {
 		g1 = bitstr.StrCmpUpto(as, ec)
 		g2 = strCmpFn(as, ec)
 		g3 = viaClosure(as, ec)
@@ -205,19 +222,19 @@ func checkCmpUptoOpts(a []byte, x Range, extras bool) *vk.Failure {
 	var p any
 	g4, p = viaGoroutine(as, ec)
 	if p != nil {
-		return vk.Failf("strcmpupto-panic", "StrCmpUpto(%x, %x) panicked in a fresh goroutine: %v", a, e, p)
+		return vk.Failf("strcmpupto-panic", "StrCmpUpto(%s, %s) panicked in a fresh goroutine: %v", hexShort(a), hexShort(e), p)
 	}
 	for _, v := range []byte{0x00, 0xff} {
 		d1, d2, p := viaDirtyStack(ac, as, ec, v)
 		if p != nil {
-			return vk.Failf("strcmpupto-panic", "StrCmpUpto(%x, %x) panicked when called after the stack had been filled with %#x: %v", a, e, v, p)
+			return vk.Failf("strcmpupto-panic", "StrCmpUpto(%s, %s) panicked when called after the stack had been filled with %#x: %v", hexShort(a), hexShort(e), v, p)
 		}
 		if d1 != got || d2 != got {
-			return vk.Failf("strcmpupto", "StrCmpUpto(%x, %x) = %d/%d after the stack had been filled with %#x, CmpUpto = %d", a, e, d1, d2, v, got)
+			return vk.Failf("strcmpupto", "StrCmpUpto(%s, %s) = %d/%d after the stack had been filled with %#x, CmpUpto = %d", hexShort(a), hexShort(e), d1, d2, v, got)
 		}
 	}
 	if g1 != got || g2 != got || g3 != got || g4 != got {
-		return vk.Failf("strcmpupto", "StrCmpUpto(%x, %x) = %d/%d/%d/%d (direct/func value/closure/goroutine), CmpUpto = %d", a, e, g1, g2, g3, g4, got)
+		return vk.Failf("strcmpupto", "StrCmpUpto(%s, %s) = %d/%d/%d/%d (direct/func value/closure/goroutine), CmpUpto = %d", hexShort(a), hexShort(e), g1, g2, g3, g4, got)
 	}
 	if as != keep {
 		return vk.Failf("strcmpupto-mutates", "StrCmpUpto changed the bytes of its string argument")
@@ -236,26 +253,26 @@ func checkCmp(x, y Range) *vk.Failure {
 	}
 	want := sign(model.CmpBits(bitsOf(x), bitsOf(y)))
 	var g, r int
-	if f := vk.Try(fmt.Sprintf("Cmp(%x, %x)", ex, ey), func() {
+	if f := vk.TryF(func() string { return fmt.Sprintf("Cmp(%s, %s)", hexShort(ex), hexShort(ey)) }, func() {
 		g = bitstr.Cmp(ex, ey)
 		r = bitstr.Cmp(ey, ex)
 	}); f != nil {
 		return f
 	}
 	if g != want {
-		return vk.Failf("cmp", "Cmp(New(%x,%d,%d)=%x, New(%x,%d,%d)=%x) = %d, want %d", x.S, x.From, x.To, ex, y.S, y.From, y.To, ey, g, want)
+		return vk.Failf("cmp", "Cmp(New(%s,%d,%d)=%s, New(%s,%d,%d)=%s) = %d, want %d", hexShort(x.S), x.From, x.To, hexShort(ex), hexShort(y.S), y.From, y.To, hexShort(ey), g, want)
 	}
 	if r != -want {
 		return vk.Failf("cmp-antisymmetry", "Cmp(y,x) = %d but Cmp(x,y) = %d", r, g)
 	}
-	return nil
+	return checkCmpShapes(ex, ey, want, x, y)
 }
 
 // checkMaxNew: New / Len on a source of 2^28 bytes (8*len = 2^31 fits no int32) or a few bytes less. The
 // encoding is compared, through Cmp / Len / CmpUpto, with the encoding of a small private copy of the
 // bytes the range touches (built from the description of the string), so no layout is assumed.
 func checkMaxNew(from, to int32, cut int) *vk.Failure {
-	if cut < 0 || cut > 64 || from < 0 || from > to || int64(to) > int64(8*(gen.MaxStrLen-cut)) || int64(to)-int64(from) > 4096 {
+	if cut < 0 || cut > 64 || from < 0 || from > to || int64(to) > int64(8*(gen.MaxStrLen-cut)) {
 		return nil
 	}
 	s := gen.MaxString(cut)
@@ -285,10 +302,10 @@ func checkMaxNew(from, to int32, cut int) *vk.Failure {
 		return vk.Failf("len", "Len(%s) = %d (on the small copy %d), want %d", what, l, l2, want)
 	}
 	if c1 != 0 || c2 != 0 {
-		return vk.Failf("cmp", "%s = %x and New(copy of bytes [%d,%d), %d, %d) = %x compare as %d/%d, want 0: the same bit string", what, e, lo, hi, sf, st, e2, c1, c2)
+		return vk.Failf("cmp", "%s = %s and New(copy of bytes [%d,%d), %d, %d) = %s compare as %d/%d, want 0: the same bit string", what, hexShort(e), lo, hi, sf, st, hexShort(e2), c1, c2)
 	}
 	if u1 != 0 || u2 != 0 {
-		return vk.Failf("cmpupto", "CmpUpto/StrCmpUpto(the bytes of the range (+ff), %s = %x) = %d/%d, want 0", what, e, u1, u2)
+		return vk.Failf("cmpupto", "CmpUpto/StrCmpUpto(the bytes of the range (+ff), %s = %s) = %d/%d, want 0", what, hexShort(e), u1, u2)
 	}
 	if j, bad := gen.MaxStringDamage(); bad {
 		return vk.Failf("cmpupto-mutates", "byte %d of the 2^28-byte source was modified", j)
@@ -336,19 +353,25 @@ func classify(c Case) (bool, []string) {
 	if payload >= 8 {
 		labels = append(labels, "x:payload>=8")
 	}
+	labels = append(labels, "x:payload-bytes:"+octave(payload))
 	if c.Op == "cmp" {
 		yb := bitsOf(*c.Y)
+		cm := common(xb, yb)
+		py := (len(yb) + 7) / 8
 		switch sign(model.CmpBits(xb, yb)) {
 		case 0:
 			labels = append(labels, "result:equal")
 		default:
-			if common(xb, yb) == min(len(xb), len(yb)) {
+			if cm == min(len(xb), len(yb)) {
 				labels = append(labels, "result:prefix")
 			} else {
 				labels = append(labels, "result:differ")
+				if d := payload - py; (d >= 2 || d <= -2) && cm >= 16 {
+					labels = append(labels, "cmp:byte-lengths-differ>=2,common>=2-bytes,then-differ")
+				}
 			}
 		}
-		return common(xb, yb) >= 1 && (c.X.To%8 != 0 || c.Y.To%8 != 0), labels
+		return cm >= 1 && (c.X.To%8 != 0 || c.Y.To%8 != 0), labels
 	}
 	switch {
 	case len(c.A) < payload:
@@ -358,7 +381,20 @@ func classify(c Case) (bool, []string) {
 	default:
 		labels = append(labels, "a:longer")
 	}
-	return len(xb) > 0 && len(c.A) >= payload-1, labels
+	if len(c.A) == 0 {
+		labels = append(labels, "a:empty")
+	}
+	labels = append(labels, "a:bytes:"+octave(len(c.A)))
+	// whole bytes a has in common with the start of b's bit string
+	src := c.X.S[int(c.X.From)/8:]
+	cb := 0
+	for cb < len(c.A) && cb < len(xb)/8 && c.A[cb] == src[cb] {
+		cb++
+	}
+	if len(c.A) < payload && cb >= 2 && cb < len(c.A) {
+		labels = append(labels, "a:shorter,common>=2-bytes,then-differs")
+	}
+	return len(xb) > 0 && (len(c.A) >= payload-1 || cb >= 1), labels
 }
 
 // ---------------------------------------------------------------- generators
@@ -395,16 +431,80 @@ func flipBit(s []byte, k int) []byte {
 	return out
 }
 
-func genCmp(t *rapid.T) Case {
-	maxLen := vk.Pick(20, 64)
-	if gen.Chance(t, 1, 10, "long") {
-		maxLen = 300
+// logUniform draws from [lo, hi] with a uniformly distributed magnitude (every octave equally likely).
+func logUniform(t *rapid.T, lo, hi int, label string) int {
+	if hi <= lo {
+		return lo
 	}
-	s := gen.Bytes(t, 0, maxLen, "s")
+	u := float64(gen.U64(t, label)>>11) / float64(uint64(1)<<53)
+	n := int(float64(lo) * math.Pow(float64(hi+1)/float64(lo), u))
+	return max(lo, min(n, hi))
+}
+
+// genSource draws a source string: short ones (up to `small` bytes, most of the cases) byte by byte, longer ones
+// with a log-uniform length - no hole between the small region and the largest length - and synthesized content.
+func genSource(t *rapid.T, small int, label string) []byte {
+	var n int
+	switch k := gen.Uniform(t, 100, label+".size"); {
+	case k < 76:
+		return gen.Bytes(t, 0, small, label)
+	case k < 92:
+		n = logUniform(t, 8, 600, label+".n")
+	case k < 98:
+		n = logUniform(t, 256, vk.Pick(4200, 9000), label+".n")
+	default:
+		n = logUniform(t, 2048, vk.Pick(9000, 40000), label+".n")
+	}
+	if n <= 48 {
+		return gen.BytesN(t, n, label)
+	}
+	return synth(n, gen.U64(t, label+".seed"), gen.Uniform(t, len(synthStyles), label+".style"))
+}
+
+// pickBit draws a bit position in [lo, hi) (hi > lo): anywhere, near hi, or near lo.
+func pickBit(t *rapid.T, lo, hi int, label string) int {
+	switch gen.Uniform(t, 4, label+".where") {
+	case 0:
+		return hi - 1 - gen.Uniform(t, min(hi-lo, 20), label+".e")
+	case 1:
+		return lo + gen.Uniform(t, min(hi-lo, 24), label+".b")
+	}
+	return lo + gen.Uniform(t, hi-lo, label)
+}
+
+func genCmp(t *rapid.T) Case {
+	s := genSource(t, vk.Pick(20, 64), "s")
 	x := genRange(t, s, "x")
 	var y Range
 	cl := ""
-	switch gen.Uniform(t, 6, "rel") {
+	switch gen.Uniform(t, 9, "rel") {
+	case 6, 7:
+		// the same start, ANY other end (byte lengths may differ by any amount), and one bit flipped inside the part
+		// both have: the content order and the length order are independent of each other
+		cl = "common-prefix-then-differ"
+		lo := int(x.From) / 8 * 8
+		t2 := lo + gen.Uniform(t, 8*len(s)-lo+1, "t2")
+		if gen.Chance(t, 1, 3, "far") && 8*len(s)-lo >= 16 { // an end at least two bytes away from x's
+			if t2 = int(x.To) + 16 + gen.Uniform(t, 64, "d+"); t2 > 8*len(s) || gen.Chance(t, 1, 2, "dir") {
+				t2 = int(x.To) - 16 - gen.Uniform(t, 64, "d-")
+			}
+			t2 = max(lo, min(t2, 8*len(s)))
+		}
+		s2 := s
+		if m := min(int(x.To), t2); m > lo {
+			s2 = flipBit(s, pickBit(t, lo, m, "k"))
+		}
+		y = Range{S: s2, From: int32(lo + gen.Uniform(t, min(8, t2-lo+1), "f2")), To: int32(t2)}
+	case 8:
+		// a shared prefix of j bytes, then an unrelated tail of any length
+		cl = "shared-prefix-other-tail"
+		lo := int(x.From) / 8
+		j := gen.Uniform(t, len(s)-lo+1, "j")
+		s2 := append(append([]byte(nil), s[lo:lo+j]...), gen.Bytes(t, 0, vk.Pick(20, 64), "tail")...)
+		y = genRange(t, s2, "y")
+		if gen.Chance(t, 3, 4, "from0") {
+			y.From = int32(gen.Uniform(t, min(8, int(y.To)+1), "f2")) // starts at the first byte like x does
+		}
 	case 0:
 		cl = "same-source-other-end"
 		lo := int(x.From) / 8 * 8
@@ -427,7 +527,7 @@ func genCmp(t *rapid.T) Case {
 		y = Range{S: s2, From: x.From + int32(8*len(pad)), To: x.To + int32(8*len(pad))}
 	default:
 		cl = "independent"
-		y = genRange(t, gen.Bytes(t, 0, maxLen, "s2"), "y")
+		y = genRange(t, genSource(t, vk.Pick(20, 64), "s2"), "y")
 	}
 	if gen.Chance(t, 1, 2, "swap") {
 		x, y = y, x
@@ -437,17 +537,67 @@ func genCmp(t *rapid.T) Case {
 
 func genCmpUpto(t *rapid.T) Case {
 	maxLen := vk.Pick(40, 64)
-	if gen.Chance(t, 1, 10, "long") {
-		maxLen = 300
-	}
-	s := gen.Bytes(t, 0, maxLen, "s")
+	s := genSource(t, maxLen, "s")
 	x := genRange(t, s, "x")
 	lo := int(x.From) / 8
 	src := s[lo:] // bytes the encoded string starts from
 	var a []byte
 	cl := ""
 	nb := int(x.To) - 8*lo // Len(b)
-	switch gen.Uniform(t, 8, "aclass") {
+	payload := (nb + 7) / 8
+	switch gen.Uniform(t, 12, "aclass") {
+	case 8, 9:
+		// a shares j bytes with b's source and then goes its own way (one byte changed up or down, the rest kept or
+		// random); mostly SHORTER than the payload, so the short-key branch meets a difference behind a common prefix
+		cl = "diverging"
+		la := 0
+		switch k := gen.Uniform(t, 10, "alen"); {
+		case k < 6 && payload >= 2:
+			la = 1 + gen.Uniform(t, payload-1, "la") // 1 .. payload-1
+			if gen.Chance(t, 1, 3, "nearfull") {
+				la = max(1, payload-1-gen.Uniform(t, min(payload-1, 9), "short"))
+			}
+		case k < 8:
+			la = payload
+		default:
+			la = payload + 1 + gen.Uniform(t, 3, "more")
+		}
+		a = make([]byte, la)
+		n := copy(a, src)
+		copy(a[n:], gen.BytesN(t, la-n, "fill"))
+		if la > 0 {
+			j := la - 1 - gen.Uniform(t, min(la, 3), "jback")
+			if gen.Chance(t, 1, 3, "anyj") {
+				j = gen.Uniform(t, la, "j")
+			}
+			switch gen.Uniform(t, 7, "how") {
+			case 0:
+				a[j]++
+			case 1:
+				a[j]--
+			case 2:
+				a[j] ^= 0x80
+			case 3:
+				a[j] ^= 0x01
+			case 4:
+				a[j] = 0x00
+			case 5:
+				a[j] = 0xff
+			default:
+				a[j] = gen.Byte(t, "c")
+			}
+			if gen.Chance(t, 1, 4, "randtail") {
+				copy(a[j+1:], gen.BytesN(t, la-j-1, "rt"))
+			}
+		}
+	case 10:
+		cl = "empty-key"
+		a = []byte{}
+	case 11:
+		// a key that stops a few bytes before / at / after the payload's end, unchanged: prefix or equal
+		cl = "truncated-near-end"
+		la := max(0, min(len(src), payload+gen.Uniform(t, 12, "d")-9))
+		a = append([]byte(nil), src[:la]...)
 	case 0:
 		cl = "truncated"
 		a = append([]byte(nil), src[:gen.Uniform(t, len(src)+1, "k")]...)
@@ -476,7 +626,7 @@ func genCmpUpto(t *rapid.T) Case {
 		a = append([]byte(nil), src[:min(len(src), (nb+7)/8)]...)
 	default:
 		cl = "unrelated"
-		a = gen.Bytes(t, 0, maxLen, "a")
+		a = genSource(t, maxLen, "a")
 	}
 	return Case{Op: "cmpupto", X: x, A: a, Class: cl}
 }
@@ -544,7 +694,7 @@ func TestGrid(t *testing.T) {
 		}
 		for _, a := range plain {
 			evals++
-			if len(xb) > 0 && len(a) >= (len(xb)+7)/8-1 {
+			if len(xb) > 0 && (len(a) >= (len(xb)+7)/8-1 || (len(a) > 0 && len(xb) >= 8 && a[0] == rs[i].S[rs[i].From/8])) {
 				nontriv++
 			}
 			if f := checkCmpUptoOpts(a, rs[i], (i+len(a))%6 == 0); f != nil {
@@ -556,6 +706,183 @@ func TestGrid(t *testing.T) {
 	vk.AddSample(map[string]any{"grid": fmt.Sprintf("%d encodings: all pairs for Cmp, x %d plain strings for CmpUpto/StrCmpUpto", len(rs), len(plain)),
 		"example": map[string]any{"x": "New(80ff, 3, 11)", "encoding": fmt.Sprintf("%x", bitstr.New("\x80\xff", 3, 11))}})
 	vk.MarkExhaustive("all strings of length <= 2 over {00,01,7f,80,ff} x from in {0,3,8,11} x all to: all pairs (Cmp), all plain strings of length <= 3 (CmpUpto/StrCmpUpto)")
+	sweep(t)
+}
+
+// sweepSizes: payload sizes in bytes without holes between the exhaustive region and the largest inputs, each with
+// the level of the case set it gets: 2 full, 1 the cases around the end of the payload only, 0 a handful.
+// Every octave has 2^k-1 .. 2^k+6 (all residues modulo 8) and two seed-dependent sizes.
+func sweepSizes(seed uint64) (sizes []int, level map[int]int) {
+	level = map[int]int{}
+	add := func(n, lv int) {
+		if _, ok := level[n]; n >= 1 && !ok {
+			level[n] = lv
+			sizes = append(sizes, n)
+		}
+	}
+	for n := 1; n <= 24; n++ {
+		add(n, 2)
+	}
+	top := vk.Pick(13, 17)
+	for k := 4; k <= top; k++ {
+		p := 1 << k
+		for n := p - 1; n <= p+1; n++ {
+			add(n, 2)
+		}
+		if k < top {
+			for n := p + 2; n <= p+6; n++ {
+				add(n, 1)
+			}
+			for i := 0; i < 2; i++ {
+				add(p+7+int(vk.Mix(seed*7919+uint64(2*k+i))%uint64(p-8)), 1)
+			}
+		}
+	}
+	if top < 16 {
+		for _, n := range []int{1<<15 - 1, 1 << 15, 1<<15 + 1, 1<<16 - 1, 1 << 16, 1<<16 + 1} {
+			add(n, 0)
+		}
+	}
+	return
+}
+
+func withByte(b []byte, i int, d int) []byte {
+	out := append([]byte(nil), b...)
+	out[i] += byte(d)
+	return out
+}
+
+// sweepRange evaluates one encoded range with a payload of n bytes against its partners (see the Rule text).
+func sweepRange(t *testing.T, n, ri int, seed uint64, level int) {
+	full := level >= 2
+	h := vk.Mix(seed*1000003 + uint64(n)*31 + uint64(ri))
+	r := []int{0, 1, 4, 7}[(ri+int(h>>8&3))%4] // bits cut from the last payload byte
+	pad := []int{0, 1, 3}[(h>>16)%3]
+	f := []int{0, 5}[(h>>24)%2]
+	var body []byte
+	content := "random"
+	switch (uint64(ri) + h>>40) % 4 {
+	case 2:
+		body, content = make([]byte, n+3), "all-00"
+	case 3:
+		body, content = bytes.Repeat([]byte{0xff}, n+3), "all-ff"
+	default:
+		body = synth(n+3, h, int(h>>32)%2)
+	}
+	body[n-1] = []byte{0x55, 0xaa, 0x6d, 0x92}[(h>>48)%4] // a mid-valued last payload byte: up, down and every bit flip change the order
+	mk := func(pad int) []byte {
+		return append(bytes.Repeat([]byte{0xa5}, pad), body...)
+	}
+	s := mk(pad)
+	nb := 8*n - r
+	if f > nb {
+		f = 0 // precondition: from <= to
+	}
+	base := 8 * pad
+	x := Range{S: s, From: int32(base + f), To: int32(base + nb)}
+	cl := fmt.Sprintf("sweep:%s,cut%d", content, r)
+	cmp := func(y Range, what string) {
+		c := Case{Op: "cmp", X: x, Y: &y, Class: cl + ":" + what}
+		if h>>3&1 == 1 {
+			c.X, c.Y = y, &x
+		}
+		checker.Run(t, c)
+	}
+	upto := func(a []byte, what string) {
+		checker.Run(t, Case{Op: "cmpupto", X: x, A: a, Class: cl + ":" + what})
+	}
+	flipped := func(k int) []byte { return flipBit(s, base+k) }
+
+	// ---- Cmp
+	cmp(Range{S: flipped(nb - 1), From: x.From, To: x.To}, "last-bit-flipped")
+	if level >= 1 {
+		// a difference in each of the 9 bytes before the last one (the tail of any word-at-a-time loop)
+		for j := 1; j <= 9 && nb-1-8*j >= 0; j++ {
+			cmp(Range{S: flipped(nb - 1 - 8*j), From: x.From, To: x.To}, "bit-flipped-in-the-last-10-bytes")
+		}
+		for _, d := range []int{1, 2, 9, n / 2} {
+			if d < 1 || d >= n || (!full && d > 2) {
+				continue
+			}
+			for _, up := range []int{0, 3} {
+				t2 := nb - 8*d + up
+				if t2 < f || t2 < 1 || (!full && up != 3*(n&1)) {
+					continue
+				}
+				cmp(Range{S: s, From: x.From, To: int32(base + t2)}, "shorter-end:prefix")
+				cmp(Range{S: flipped(t2 - 1), From: x.From, To: int32(base + t2)}, "shorter-end:last-common-bit-flipped")
+				if t2 > 17 {
+					cmp(Range{S: flipped(t2 - 17), From: x.From, To: int32(base + t2)}, "shorter-end:flipped-2-bytes-before")
+				}
+			}
+		}
+	}
+	if full {
+		p2 := (pad + 2) % 4
+		cmp(Range{S: mk(p2), From: int32(8*p2 + f), To: int32(8*p2 + nb)}, "same-bits-other-placement")
+		cmp(Range{S: flipped(nb), From: x.From, To: x.To}, "first-masked-bit-flipped")
+		if k := 8 * ((n - 1) &^ 7); k < nb {
+			cmp(Range{S: flipped(k), From: x.From, To: x.To}, "first-bit-of-last-word-flipped")
+		}
+		cmp(Range{S: flipped(int(h>>20) % nb), From: x.From, To: x.To}, "random-bit-flipped")
+		cmp(Range{S: s, From: x.From, To: int32(base + 8*(n+2) - 3)}, "longer-end:prefix")
+		cmp(Range{S: flipped(nb - 1), From: x.From, To: int32(base + 8*(n+2) - 3)}, "longer-end:last-common-bit-flipped")
+	}
+
+	// ---- CmpUpto / StrCmpUpto
+	ks := []int{n - 1, n}
+	if full {
+		ks = []int{0, 1, 2, 3, 7, 8, 9, n / 2, n - 9, n - 8, n - 2, n - 1, n, n + 1, n + 3}
+	}
+	seen := map[int]bool{}
+	for _, k := range ks {
+		if k < 0 || k > n+3 || seen[k] {
+			continue
+		}
+		seen[k] = true
+		a := append([]byte(nil), body[:k]...)
+		upto(a, "key-exact")
+		if k > 0 {
+			upto(withByte(a, k-1, 1), "key-last-byte+1")
+			if full {
+				upto(withByte(a, k-1, -1), "key-last-byte-1")
+			}
+		}
+		if k >= n && level >= 1 {
+			upto(flipBit(a, nb-1), "key-flip-at-len-1")
+			if nb < 8*k {
+				upto(flipBit(a, nb), "key-flip-at-len")
+			}
+		}
+		// a difference in each of the 9 bytes before the key's / the payload's last one
+		if level >= 1 && (k == n-1 || k == n) {
+			for j := 1; j <= 9; j++ {
+				if i := min(k, n) - 1 - j; i >= 0 {
+					upto(withByte(a, i, 1-2*(j&1)), "key-differs-in-the-last-10-bytes")
+				}
+			}
+		}
+	}
+}
+
+func sweep(t *testing.T) {
+	seed := vk.Seed()
+	sizes, level := sweepSizes(seed)
+	for _, n := range sizes {
+		switch {
+		case n <= 17 || (n <= 256 && level[n] == 2 && n > 24):
+			for ri := 0; ri < 4; ri++ { // every cut of the last byte
+				sweepRange(t, n, ri, seed, 2)
+			}
+		case n <= 256:
+			sweepRange(t, n, n%4, seed, 2)
+		default:
+			// larger inputs: one range per size (cut, placement and content rotate with the size), under every GOMAXPROCS
+			// setting when the process varies it
+			vk.ProcsSweep(func() { sweepRange(t, n, n%4, seed, level[n]) })
+		}
+	}
+	vk.AddSample(map[string]any{"sweep": fmt.Sprintf("payload sizes in bytes: %v", sizes)})
 }
 
 // TestLast runs at the very end of the process: huge inputs (the maximum bitmap / string) and the regression cases of that size come last, so that
@@ -577,6 +904,26 @@ func TestLast(t *testing.T) {
 		for _, r := range [][2]int64{{0, 0}, {0, 13}, {3, 80}, {8 * (gen.MaxStrLen / 2), 8*(gen.MaxStrLen/2) + 16}, {8*(gen.MaxStrLen/2) - 5, 8*(gen.MaxStrLen/2) + 11}} {
 			checker.Run(t, Case{Op: "maxnew", X: Range{From: int32(r[0]), To: int32(r[1])}, Cut: cut, Class: "grid-maximum-string"})
 		}
+		// wide ranges (long encodings) at the end, at the start and across the middle of the maximum string
+		widths := []int64{4081, 4096, 32767, 32768, 32769, 65535, 65536, 65537, 1<<19 + 3, 1 << 20, 1<<23 - 5}
+		if vk.Thorough() && cut == 0 {
+			widths = append(widths, 1<<24+1, 1<<28-3, 1<<28)
+		}
+		for i, w := range widths {
+			d := []int64{1, 8, 0, 13, 64}[(i+cut)%5]
+			to := min(L8-d, math.MaxInt32)
+			checker.Run(t, Case{Op: "maxnew", X: Range{From: int32(to - w), To: int32(to)}, Cut: cut, Class: "grid-maximum-string-wide"})
+			if cut == 0 {
+				checker.Run(t, Case{Op: "maxnew", X: Range{From: int32(i % 8), To: int32(w - int64(i%3))}, Cut: cut, Class: "grid-maximum-string-wide"})
+				mid := int64(8 * (gen.MaxStrLen / 2))
+				checker.Run(t, Case{Op: "maxnew", X: Range{From: int32(mid - w/2), To: int32(mid + w/2 + 9)}, Cut: cut, Class: "grid-maximum-string-wide"})
+			}
+		}
+	}
+	if vk.Thorough() {
+		// the whole maximum string: the longest encoding there is (2^28 + 1 bytes; 8*len does not fit an int32)
+		checker.Run(t, Case{Op: "maxnew", X: Range{From: 0, To: math.MaxInt32}, Class: "grid-maximum-string-whole"})
+		checker.Run(t, Case{Op: "maxnew", X: Range{From: 5, To: math.MaxInt32 - 7}, Class: "grid-maximum-string-whole"})
 	}
 	checker.RegressLast(t)
 }
